@@ -49,21 +49,25 @@ def rule_m5(repo):
     ev = need(base.methods.get('eval'), 'Macro.eval not found')
     ex = need(base.methods.get('expand'), 'Macro.expand not found')
     args, prevs = ev.params()[1:3]
+    from ..flow import flow_of
     ok = False
+    fl = flow_of(ev.node)
     for r in returns_of(ev.node):
-        v = r.value
+        v = fl.inline(r.value)
         if isinstance(v, ast.Attribute) and v.attr == 'th' and isinstance(v.value, ast.Call) and \
                 call_name(v.value) == 'self.get_proof_term' and len(v.value.args) == 2 and is_name(v.value.args[0], args):
             # second argument: proof terms built from exactly the premises
-            from ..flow import flow_of
-            roots = flow_of(ev.node).resolve(v.value.args[1])
+            call = [c for c in ast.walk(r.value) if isinstance(c, ast.Call) and call_name(c) == 'self.get_proof_term'] or \
+                [c for d in fl.defs.values() for _k, e in d for c in ast.walk(e) if isinstance(c, ast.Call) and call_name(c) == 'self.get_proof_term']
+            roots = fl.resolve(call[0].args[1]) if call else set()
             ok = any(p.startswith(prevs) for p in roots) and len(returns_of(ev.node)) == 1
     res.add('%s :: Macro.eval :: is-conclusion-of-expansion' % MACRO, ok,
             'return self.get_proof_term(args, <premises>).th' if ok else 'Macro.eval no longer returns the sequent of get_proof_term', ev.loc)
     eargs = ex.params()
     ok = False
+    flx = flow_of(ex.node)
     for r in returns_of(ex.node):
-        v = r.value
+        v = flx.inline(r.value)
         if isinstance(v, ast.Call) and call_attr(v) == 'export' and isinstance(v.func.value, ast.Call) and \
                 call_name(v.func.value) == 'self.get_proof_term' and v.args and is_name(v.args[0], eargs[1]):
             ok = len(returns_of(ex.node)) == 1
